@@ -51,7 +51,7 @@ type maskCase struct {
 	Gen    string            `json:"gen"`
 	Option string            `json:"option"` // "" | field_mask_halfway | field_mask_zero_required (part of Gen)
 	Schema *ref.SchemaJ      `json:"schema"`
-	Mode   string            `json:"mode"` // mask | nomask | generate
+	Mode   string            `json:"mode"` // mask | nomask | generate | history
 	Struct string            `json:"struct"`
 	Value  interface{}       `json:"value"`
 	Paths  []string          `json:"paths"`
@@ -65,6 +65,25 @@ type maskCase struct {
 	Exact     bool        `json:"exact"`
 	WantWrite interface{} `json:"want_write,omitempty"` // value the bytes written under the mask must decode to
 	WantRead  interface{} `json:"want_read,omitempty"`  // object a reader under the mask must hold
+	// Steps (mode history): successive operations on ONE object built from Value, each under its own mask.
+	Steps []histStep `json:"steps,omitempty"`
+}
+
+// histStep is one operation of a history: a Write, or a Read of the complete
+// encoding of the case's Value into the same object, under the given mask.
+type histStep struct {
+	Op     string      `json:"op"` // write | read
+	Paths  []string    `json:"paths"`
+	Black  bool        `json:"black"`
+	NoMask bool        `json:"nomask,omitempty"` // Set_FieldMask(nil)
+	Want   interface{} `json:"want"`             // write: value the bytes must decode to; read: the object afterwards
+}
+
+func (s histStep) String() string {
+	if s.NoMask {
+		return s.Op + " under a nil mask"
+	}
+	return fmt.Sprintf("%s under %s mask %q", s.Op, colour(s.Black), s.Paths)
 }
 
 type outcome struct {
@@ -174,6 +193,9 @@ func judge(c maskCase) outcome {
 		return resp, nil
 	}
 	valJ := ref.StructToJSON(st, driverValue(top, v).(*ref.StructV))
+	if c.Mode == "history" {
+		return judgeHistory(c, st, ti.Key, v, valJ, call, parse)
+	}
 	desc := fmt.Sprintf("%s under %s mask %q", c.Struct, colour(c.Black), c.Paths)
 	if c.At != nil {
 		desc += fmt.Sprintf(" attached to field %d", *c.At)
@@ -323,6 +345,77 @@ func loadBaselines(sess *drv.Session, sch *ref.Schema) (baselines, error) {
 	return out, nil
 }
 
+// judgeHistory: every step on the one object must behave like the same step on
+// a fresh object holding the object's current value: a Write emits exactly the
+// data selected by the mask in force (a nil mask: everything), whatever masks
+// earlier steps left on the object or on its children.
+func judgeHistory(c maskCase, st *ref.StructT, key string, v *ref.StructV, valJ interface{},
+	call func(map[string]interface{}) (map[string]interface{}, error), parse func(interface{}) (*ref.StructV, error)) outcome {
+	top := &ref.Type{Kind: ref.Struct, Struct: st}
+	enc := hex.EncodeToString(ref.Encode(st, v, nil))
+	var steps []interface{}
+	for _, s := range c.Steps {
+		m := map[string]interface{}{"op": s.Op, "paths": s.Paths, "black": s.Black}
+		if s.NoMask {
+			m["nomask"] = true
+		}
+		if s.Op == "read" {
+			m["hex"] = enc
+		}
+		steps = append(steps, m)
+	}
+	resp, err := call(map[string]interface{}{"op": "maskhistory", "type": key, "value": valJ, "steps": steps})
+	if err != nil {
+		return outcome{"harness", err, ""}
+	}
+	rs, _ := resp["steps"].([]interface{})
+	var told []string
+	for i, s := range c.Steps {
+		told = append(told, s.String())
+		where := fmt.Sprintf("step %d of the history [%s] on one %s object", i+1, strings.Join(told, "; "), c.Struct)
+		if i >= len(rs) {
+			return harness("driver performed %d of %d steps", len(rs), len(c.Steps))
+		}
+		r, _ := rs[i].(map[string]interface{})
+		if r["maskpanic"] != nil || r["maskerr"] != nil {
+			return outcome{status: "judged", err: fmt.Errorf("%s: NewFieldMask fails on valid, conflict-free paths: %v %v", where, r["maskpanic"], r["maskerr"])}
+		}
+		if r["panic"] != nil {
+			return outcome{status: "judged", err: fmt.Errorf("%s: generated code panicked: %v\n  value %s", where, r["panic"], ref.Show(v))}
+		}
+		if r["err"] != nil {
+			return outcome{status: "judged", err: fmt.Errorf("%s: generated code failed: %v\n  value %s", where, r["err"], ref.Show(v))}
+		}
+		want, err := parse(s.Want)
+		if err != nil {
+			return harness("step %d want: %v", i+1, err)
+		}
+		if s.Op == "read" {
+			if left, _ := r["left"].(float64); left != 0 {
+				return outcome{status: "judged", err: fmt.Errorf("%s: Read left %v bytes unread", where, left)}
+			}
+			rv, err := ref.StructFromJSON(st, r["value"])
+			if err != nil {
+				return outcome{status: "judged", err: fmt.Errorf("%s: object does not fit the schema: %v", where, err)}
+			}
+			wn, gn := ref.Normalise(top, want), ref.Normalise(top, rv)
+			if !ref.Equal(wn, gn) {
+				return outcome{status: "judged", err: fmt.Errorf("%s: the object does not hold the old content plus exactly the selected part\n  value %s\n  want  %s\n  got   %s", where, ref.Show(v), ref.Show(wn), ref.Show(gn))}
+			}
+			continue
+		}
+		b, _ := hex.DecodeString(r["hex"].(string))
+		dr, derr := ref.Decode(st, b, false)
+		if derr != nil {
+			return outcome{status: "judged", err: fmt.Errorf("%s: the bytes are not a well-formed encoding: %v\n  value %s\n  bytes %x", where, derr, ref.Show(v), b)}
+		}
+		if got := canon(top, dr.Value); !ref.Equal(want, got) {
+			return outcome{status: "judged", err: fmt.Errorf("%s: the bytes do not decode to the object's content restricted to the mask in force (a fresh object written under this mask gives `want`)\n  value %s\n  want  %s\n  got   %s\n  bytes %x", where, ref.Show(v), ref.Show(want), ref.Show(got), b)}
+		}
+	}
+	return outcome{status: "judged"}
+}
+
 // driverValue is the value as the driver must be told it: the driver marks an
 // absent field as unset by storing nil into pointer / slice / map fields, but
 // an optional binary field with a declared default is unset iff it holds the
@@ -389,6 +482,7 @@ func modelCfg() idl.Cfg {
 // rapid draws small integers more often than large ones; weighted choices are spelled as tables
 var (
 	weights3of4 = []bool{true, true, true, false}
+	oneInFive   = []bool{false, false, true, false, false}
 	shapes      = []string{"paths", "paths", "paths", "paths", "paths", "paths", "paths", "paths", "paths", "paths", "paths", "paths", "nomask", "paths", "paths", "paths", "paths", "paths", "paths", "paths", "paths", "paths", "paths", "nopaths"}
 )
 
@@ -433,6 +527,8 @@ type pathGen struct {
 	reqEnd    bool // listed finding zero-required-...: a black path ends only at a required field or at an index / key
 	noReqCont bool // listed finding black-required-container: no black path ends at a required container / struct field
 	noUnion   bool // listed finding union-exception-not-maskable: no path reaches a union or an exception
+	forceLen  int  // > 0: every path has this many steps (when the type allows)
+	structy   bool // prefer fields that are, or hold, structs (history mode: sub-masks land on child objects)
 }
 
 // unmaskable: a union or an exception (the mask library knows structs only).
@@ -463,6 +559,9 @@ func (g *pathGen) mayEnd(steps []pstep) bool {
 // path draws one path of at most maxLen steps; nil = none could be drawn.
 func (g *pathGen) path(st *ref.StructT, v *ref.StructV, maxLen int) []pstep {
 	want := rapid.SampledFrom([]int{2, 3, 1, 4, 3, 2}).Draw(g.rt, "pathlen")
+	if g.forceLen > 0 {
+		want = g.forceLen
+	}
 	if want > maxLen {
 		want = maxLen
 	}
@@ -534,8 +633,18 @@ func (g *pathGen) step(t *ref.Type, sample ref.V, last bool) (pstep, ref.V, bool
 				maps = append(maps, f)
 			}
 		}
+		var structy []*ref.FieldT
+		if g.structy {
+			for _, f := range deep {
+				if containsStruct(f.Type) {
+					structy = append(structy, f)
+				}
+			}
+		}
 		var f *ref.FieldT
 		switch {
+		case len(structy) > 0 && rapid.SampledFrom(weights3of4).Draw(rt, "structyfield"):
+			f = rapid.SampledFrom(structy).Draw(rt, "field")
 		case len(maps) > 0 && !rapid.SampledFrom(weights3of4).Draw(rt, "notmapfield"):
 			f = rapid.SampledFrom(maps).Draw(rt, "field")
 		case !last && len(deep) > 0 && rapid.SampledFrom(weights3of4).Draw(rt, "deepfield"):
@@ -717,6 +826,137 @@ func render(paths [][]pstep) []string {
 	return out
 }
 
+// knownShape names the listed (still known) finding whose shape the mask shows on the value, "" if none.
+func knownShape(w *walker, black, zeroReq, conflict bool, paths [][]pstep) string {
+	switch {
+	case w.preCount && vt.Known(prop, fPreCount):
+		return fPreCount
+	case zeroReq && len(w.offenders) > 0 && vt.Known(prop, fZeroAll):
+		return fZeroAll
+	case !zeroReq && w.reqTerminal && vt.Known(prop, fBlackReqCont):
+		return fBlackReqCont
+	case w.blackLeaf && vt.Known(prop, fBlackLeaf):
+		return fBlackLeaf
+	}
+	if conflict {
+		// On a conflicting set the mask the library builds depends on the order of the paths, so the
+		// walker (which follows the reference trie) cannot tell whether the shape of a listed finding
+		// is present: such sets are only used where no listed finding can apply.
+		switch {
+		case black && vt.Known(prop, fBlackLeaf):
+			return fBlackLeaf
+		case black && !zeroReq && vt.Known(prop, fBlackReqCont):
+			return fBlackReqCont
+		case zeroReq && vt.Known(prop, fZeroAll):
+			return fZeroAll
+		case hasIndexStep(paths) && vt.Known(prop, fPreCount):
+			return fPreCount
+		}
+	}
+	return ""
+}
+
+// newPathGen sets the exclusion switches of the listed findings.
+func newPathGen(rt *rapid.T, black, zeroReq bool) *pathGen {
+	g := &pathGen{rt: rt, black: black}
+	g.safeIdx = vt.Known(prop, fPreCount)
+	g.reqEnd = zeroReq && vt.Known(prop, fZeroAll)
+	g.noReqCont = !zeroReq && vt.Known(prop, fBlackReqCont)
+	g.noUnion = vt.Known(prop, fUnion)
+	return g
+}
+
+// history mode ---------------------------------------------------------------
+
+var histKinds = []string{"narrow", "nil", "parent", "white", "black", "narrow", "empty", "nil", "parent", "black"}
+
+// histMask draws the mask of one history step over the object's current value:
+// a conflict-free set in the exact region (no black path ending in `*`).
+// nil: Set_FieldMask(nil); empty: a mask without paths; narrow: 1-2 white paths
+// of 2-4 steps through struct-holding fields; parent: one white path that ends
+// at a struct-holding field; white / black: an ordinary set.
+func histMask(rt *rapid.T, kind string, st *ref.StructT, cur *ref.StructV, zeroReq bool) (step histStep, root *node, w *walker, skip string) {
+	step = histStep{Op: "write", Paths: []string{}}
+	var paths [][]pstep
+	switch kind {
+	case "nil":
+		step.NoMask = true
+	case "empty":
+	default:
+		step.Black = kind == "black"
+		g := newPathGen(rt, step.Black, zeroReq)
+		if g.noUnion && st.Kind != "struct" {
+			return step, nil, &walker{}, fUnion
+		}
+		g.structy = true
+		n := rapid.SampledFrom([]int{2, 1, 3}).Draw(rt, "npaths")
+		switch kind {
+		case "narrow":
+			g.forceLen = rapid.SampledFrom([]int{2, 3, 3, 4}).Draw(rt, "narrowlen")
+			n = rapid.SampledFrom([]int{1, 2}).Draw(rt, "npaths")
+		case "parent":
+			g.forceLen, n = 1, 1
+		}
+		tr := newNode()
+		for i := 0; i < n; i++ {
+			p := g.path(st, cur, 4)
+			if p == nil || tr.conflicts(p) || (step.Black && len(p) > 0 && p[len(p)-1].star) {
+				continue
+			}
+			tr.insert(p)
+			paths = append(paths, p)
+		}
+		step.Paths = render(paths)
+	}
+	if len(paths) > 0 {
+		root, _ = trieOf(paths)
+	}
+	w = &walker{m: fmode{black: step.Black, zeroReq: zeroReq}}
+	w.walk(&ref.Type{Kind: ref.Struct, Struct: st}, cur, root, nil, 0)
+	return step, root, w, knownShape(w, step.Black, zeroReq, false, paths)
+}
+
+// genHistory draws 2-3 successive operations on one object holding v.  narrowWider reports a step
+// that puts a sub-mask on a child struct followed by a Write that selects structs below the root
+// without any sub-mask.
+func genHistory(rt *rapid.T, st *ref.StructT, v *ref.StructV, zeroReq bool, fresh baselines) (steps []histStep, kinds []string, narrowWider bool, skip string) {
+	top := &ref.Type{Kind: ref.Struct, Struct: st}
+	cur := v
+	n := rapid.SampledFrom([]int{2, 3, 3, 2}).Draw(rt, "nsteps")
+	narrowSeen := false
+	for k := 0; k < n; k++ {
+		kind := rapid.SampledFrom(histKinds).Draw(rt, "stepkind")
+		step, root, w, sk := histMask(rt, kind, st, cur, zeroReq)
+		if sk != "" {
+			return nil, nil, false, sk
+		}
+		m := fmode{black: step.Black, zeroReq: zeroReq}
+		if k < n-1 && rapid.SampledFrom([]bool{false, false, false, false, true}).Draw(rt, "readstep") {
+			// read the complete encoding of v into the same object; later writes see the merged content
+			nv, ok := complete(top, mergeRead(top, cur, v, root, m, fresh), 16)
+			if ok && writable(top, canon(top, nv), true) {
+				step.Op = "read"
+				step.Want = ref.StructToJSON(st, nv.(*ref.StructV))
+				cur = canon(top, nv).(*ref.StructV)
+				steps, kinds = append(steps, step), append(kinds, "read_"+kind)
+				if w.maxSel.structBelow {
+					narrowSeen = true
+				}
+				continue
+			}
+		}
+		step.Want = ref.StructToJSON(st, canon(top, filterWrite(top, cur, root, m)).(*ref.StructV))
+		steps, kinds = append(steps, step), append(kinds, kind)
+		if narrowSeen && !w.maxSel.structBelow {
+			narrowWider = true
+		}
+		if w.maxSel.structBelow {
+			narrowSeen = true
+		}
+	}
+	return steps, kinds, narrowWider, ""
+}
+
 // hasIndexStep: some path names specific list / set indices.
 func hasIndexStep(paths [][]pstep) bool {
 	for _, p := range paths {
@@ -875,6 +1115,15 @@ func TestMask(t *testing.T) {
 			vt.Class("no_generated_root")
 			return
 		}
+		var nested []*ref.StructT // roots holding structs: a sub-mask lands on a child object
+		for _, st := range rich {
+			for _, f := range st.Fields {
+				if containsStruct(f.Type) {
+					nested = append(nested, st)
+					break
+				}
+			}
+		}
 
 		npairs := rapid.IntRange(40, 100).Draw(rt, "npairs")
 		for i := 0; i < npairs; i++ {
@@ -898,6 +1147,54 @@ func TestMask(t *testing.T) {
 			}
 			v := canon(top, v1).(*ref.StructV)
 			c.Value = ref.StructToJSON(st, v)
+			if option != "field_mask_halfway" && rapid.SampledFrom(oneInFive).Draw(rt, "history") {
+				// several operations on ONE object (not under field_mask_halfway, where a child keeps the first mask by design)
+				hst, hv := st, v
+				if len(nested) > 0 && rapid.SampledFrom(weights3of4).Draw(rt, "nestedroot") {
+					hst = rapid.SampledFrom(nested).Draw(rt, "struct")
+					hv0 := ref.GenStruct(rt, hst, ref.GenOpts{MaxLen: 4, AllFields: true})
+					if hv0 == nil {
+						vt.Class("value_not_constructible")
+						continue
+					}
+					hv1, ok := complete(&ref.Type{Kind: ref.Struct, Struct: hst}, hv0, 16)
+					if !ok {
+						vt.Class("value_with_nil_struct")
+						continue
+					}
+					hv = canon(&ref.Type{Kind: ref.Struct, Struct: hst}, hv1).(*ref.StructV)
+				}
+				steps, kinds, narrowWider, skip := genHistory(rt, hst, hv, zeroReq, fresh)
+				if skip != "" {
+					vt.Excluded(skip)
+					continue
+				}
+				c.Mode, c.Struct, c.Steps, c.Paths = "history", hst.Name, steps, []string{}
+				c.Value = ref.StructToJSON(hst, hv)
+				vt.Eval()
+				o := judge(c)
+				vt.Class("status:" + o.status)
+				if o.status != "judged" && o.err == nil {
+					continue
+				}
+				vt.Class("mode:history")
+				vt.Class(fmt.Sprintf("history_steps:%d", len(steps)))
+				for _, k := range kinds {
+					vt.Class("history_step:" + k)
+				}
+				vt.ClassIf(narrowWider, "history:narrow_then_wider")
+				if narrowWider {
+					vt.Nontrivial(base.Files[base.Main] + c.Gen + c.Struct + fmt.Sprint(c.Value) + fmt.Sprint(c.Steps))
+				}
+				vt.Sample(map[string]interface{}{"gen": c.Gen, "struct": c.Struct, "history": fmt.Sprint(steps), "value": ref.Show(hv)})
+				if o.err != nil {
+					if strings.HasPrefix(o.err.Error(), "harness:") {
+						rt.Fatalf("%v", o.err)
+					}
+					vt.Fail(rt, prop, "mask", c, "%v", o.err)
+				}
+				continue
+			}
 			c.Black = rapid.Bool().Draw(rt, "black")
 			m := fmode{black: c.Black, zeroReq: zeroReq}
 
@@ -928,19 +1225,7 @@ func TestMask(t *testing.T) {
 			case "nopaths":
 				// a mask without any path: "A empty mask means PASS ALL"
 			default:
-				g := &pathGen{rt: rt, black: c.Black}
-				if vt.Known(prop, fPreCount) {
-					g.safeIdx = true
-				}
-				if zeroReq && vt.Known(prop, fZeroAll) {
-					g.reqEnd = true
-				}
-				if vt.Known(prop, fBlackReqCont) && !zeroReq {
-					g.noReqCont = true
-				}
-				if vt.Known(prop, fUnion) {
-					g.noUnion = true
-				}
+				g := newPathGen(rt, c.Black, zeroReq)
 				if g.noUnion && mst.Kind != "struct" {
 					// a mask cannot be built over a union / exception: only the empty path set
 					vt.Excluded(fUnion)
@@ -972,32 +1257,7 @@ func TestMask(t *testing.T) {
 				c.Paths = render(paths)
 				_, c.Conflict = trieOf(paths)
 			}
-			skip := ""
-			switch {
-			case w.preCount && vt.Known(prop, fPreCount):
-				skip = fPreCount
-			case zeroReq && len(w.offenders) > 0 && vt.Known(prop, fZeroAll):
-				skip = fZeroAll
-			case !zeroReq && w.reqTerminal && vt.Known(prop, fBlackReqCont):
-				skip = fBlackReqCont
-			case w.blackLeaf && vt.Known(prop, fBlackLeaf):
-				skip = fBlackLeaf
-			}
-			if skip == "" && c.Conflict {
-				// On a conflicting set the mask the library builds depends on the order of the paths, so the
-				// walker (which follows the reference trie) cannot tell whether the shape of a listed finding
-				// is present: such sets are only used where no listed finding can apply.
-				switch {
-				case c.Black && vt.Known(prop, fBlackLeaf):
-					skip = fBlackLeaf
-				case c.Black && !zeroReq && vt.Known(prop, fBlackReqCont):
-					skip = fBlackReqCont
-				case zeroReq && vt.Known(prop, fZeroAll):
-					skip = fZeroAll
-				case hasIndexStep(paths) && vt.Known(prop, fPreCount):
-					skip = fPreCount
-				}
-			}
+			skip := knownShape(w, c.Black, zeroReq, c.Conflict, paths)
 			if skip != "" {
 				vt.Excluded(skip)
 				continue
